@@ -311,6 +311,10 @@ def handle_guard(p):
             from pyxel.observation import Observation, ParameterValues
 
             good = sec[sec_name].get(field)
+            if good is None:
+                # fields the base detector leaves unspecified: a valid first point all the same (a dask sweep whose ONLY
+                # value is NaN dies in pandas/xarray with an IndexError before any setter is reached)
+                good = {"wavelength": 600.0, "pixel_scale": 2.0}.get(field)
             detector = py_detector(det, sec)
             values = [x] if good is None or same_value(good, x) else [good, x]     # the points of a sweep are distinct
             obs = Observation(parameters=[ParameterValues(key=f"detector.{sec_name}.{field}", values=values)],
